@@ -214,6 +214,15 @@ def join_blocks(
             assert not block1.size
             alignment_data[block1] = block2_align
 
+    # block2 is about to leave the module, so it must not be mentioned in
+    # the remaining block-keyed tables (a data block assembled from a patch
+    # can have an encoding, for example).
+    if isinstance(block2, gtirb.DataBlock):
+        for table_def in (_auxdata.types, _auxdata.encodings):
+            table = table_def.get(module)
+            if table:
+                table.pop(block2, None)
+
     block1.size = block1.size + block2.size
     cache.block_ordering[block2.section].remove_block(block2)
     block2.byte_interval = None
